@@ -56,7 +56,11 @@ def expand_reads(names, stmts_by_out):
 
 
 def enc(p):
-    return p.replace("%", "%25").replace(" ", "%20").replace("\t", "%09")
+    # (also what the manifest ($) and the shell (quotes, $, &, ...) would take for their own)
+    out = p.replace("%", "%25")
+    for ch in " \t'\"$&;()<>|*?`\\!#~":
+        out = out.replace(ch, "%%%02X" % ord(ch))
+    return out
 
 
 def depfile_of(s):
@@ -145,7 +149,8 @@ class Variant:
         if s.rsp:
             lines.append("  rspfile = " + s.rsp[0])
             # a literally empty value is rejected by the parser; an empty *evaluated* content is legal
-            lines.append("  rspfile_content = " + (s.rsp[1] if s.rsp[1] else "$rsp_nothing"))
+            # rsp_manifest: how the manifest writes the content ($in, $in_newline) when s.rsp[1] is its evaluated value
+            lines.append("  rspfile_content = " + (getattr(s, "rsp_manifest", None) or (s.rsp[1] if s.rsp[1] else "$rsp_nothing")))
         return lines
 
     def _build_lines(self, i, s):
